@@ -5,15 +5,26 @@ import (
 	"math/big"
 	"math/rand"
 	"os"
+	"sort"
 	"strings"
 
 	sdkmath "cosmossdk.io/math"
 	sdk "github.com/cosmos/cosmos-sdk/types"
+	authtypes "github.com/cosmos/cosmos-sdk/x/auth/types"
+	authzkeeper "github.com/cosmos/cosmos-sdk/x/authz/keeper"
+	banktypes "github.com/cosmos/cosmos-sdk/x/bank/types"
+	distrkeeper "github.com/cosmos/cosmos-sdk/x/distribution/keeper"
+	distrtypes "github.com/cosmos/cosmos-sdk/x/distribution/types"
+	stakingtypes "github.com/cosmos/cosmos-sdk/x/staking/types"
 	"github.com/ethereum/go-ethereum/common"
 	ethtypes "github.com/ethereum/go-ethereum/core/types"
 
+	distrpc "github.com/haqq-network/haqq/precompiles/distribution"
+	stakingpc "github.com/haqq-network/haqq/precompiles/staking"
 	coinomicstypes "github.com/haqq-network/haqq/x/coinomics/types"
 	"github.com/haqq-network/haqq/x/evm/statedb"
+	evmtypes "github.com/haqq-network/haqq/x/evm/types"
+	stakingkeeper "github.com/haqq-network/haqq/x/staking/keeper"
 )
 
 // C05 / C02 — the StateDB: journal, snapshots, revert, commit against the real EVM keeper.
@@ -219,10 +230,114 @@ func c05Gen(r *rand.Rand, tier string, mode string) []Case {
 	if tier == "thorough" {
 		np = 600
 	}
+	// fixed cases: the contract delegates coins of its own; rewards are allocated; the contract — already dirty in the
+	// transaction (value received, storage written, a payment made) — claims / withdraws them, also next to a delegation
+	// of the origin's coins, and the origin collects its own with its next delegation
+	out = append(out, Case{"ptx # value=777 gas=2000000 script=S:0:3,G:500000000000000", "ptx # value=1000 gas=2000000 script=S:1:2,P:5,C rewards=900000000000000000000000",
+		"ptx # value=0 gas=2000000 script=D:400000000000000,S:2:1", "ptx # value=300 gas=2000000 script=P:7,W,S:0:1 rewards=500000000000000000000000",
+		"ptx # value=250 gas=2000000 script=S:0:2,D:3000,C,P:9 rewards=700000000000000000000000", "ptx # value=0 gas=2000000 script=C,[,S:1:5,C,]R,P:1 rewards=600000000000000000000000"})
+	// fixed case: the origin calls the precompiles directly, with gas limits sweeping through the range in which the call
+	// runs out of gas somewhere inside the Cosmos message
+	{
+		var c Case
+		for g := 26_000; g <= 130_000; g += 1_300 {
+			c = append(c, fmt.Sprintf("dtx # m=delegate amt=%d gas=%d", 1_000_000+g, g))
+		}
+		for g := 26_000; g <= 130_000; g += 4_100 {
+			c = append(c, fmt.Sprintf("dtx # m=undelegate amt=%d gas=%d", 1000+g, g), fmt.Sprintf("dtx # m=claim gas=%d", g))
+		}
+		out = append(out, c)
+	}
 	for i := 0; i < np; i++ {
 		out = append(out, Case{puppetGenLine(r, mode)})
+		if r.Intn(8) == 0 {
+			out = append(out, Case{fmt.Sprintf("dtx # m=%s amt=%d gas=%d", pick(r, []string{"delegate", "delegate", "undelegate", "claim"}), 1000+r.Intn(1_000_000), 25_000+r.Intn(120_000))})
+		}
 	}
 	return out
+}
+
+// c05Dtx: the origin calls a stateful precompile directly (no contract in between) with a given gas limit.  A
+// transaction that fails — here typically by running out of gas somewhere inside the Cosmos message — may leave nothing
+// behind but the fee and the nonce: the staking, distribution, authz and bank stores are compared key by key.
+func c05Dtx(f []string, prop string, line Case, fails *[]Failure, tags *[]string) {
+	puppetSetup()
+	nw, kr := fixture()
+	app := nw.App
+	kv := vmKV(f)
+	E := kr.GetKey(puppetOrigin)
+	val := nw.GetValidators()[0].OperatorAddress
+	sabi, _ := stakingpc.LoadABI()
+	dpc, _ := distrpc.NewPrecompile(distrkeeper.Keeper{}, stakingkeeper.Keeper{}, authzkeeper.Keeper{})
+	var to common.Address
+	var in []byte
+	switch kv["m"] {
+	case "undelegate":
+		to = common.HexToAddress(stakingpc.PrecompileAddress)
+		in, _ = sabi.Pack("undelegate", E.Addr, val, mustBig(kv["amt"]))
+	case "claim":
+		to = dpc.Address()
+		in, _ = dpc.ABI.Pack("claimRewards", E.Addr, uint32(10))
+	default:
+		to = common.HexToAddress(stakingpc.PrecompileAddress)
+		in, _ = sabi.Pack("delegate", E.Addr, val, mustBig(kv["amt"]))
+	}
+	keys := []string{stakingtypes.StoreKey, distrtypes.StoreKey, authzkeeper.StoreKey, banktypes.StoreKey}
+	snap := func() map[string]map[string]string {
+		ctx := nw.GetContext()
+		m := map[string]map[string]string{}
+		for _, k := range keys {
+			m[k] = nodeStoreMap(ctx, app.GetKey(k))
+		}
+		return m
+	}
+	pre := snap()
+	price := big.NewInt(2_000_000_000)
+	res, _, _ := c07Send(puppetOrigin, evmtypes.EvmTxArgs{To: &to, Input: in, GasLimit: uint64(vmIdx(kv["gas"])), GasPrice: price})
+	post := snap()
+	failed := res.Code != 0
+	if res.Code == 0 {
+		if txr, e := evmtypes.DecodeTxResponse(res.Data); e == nil {
+			failed = txr.Failed()
+		}
+	}
+	if !failed {
+		*tags = append(*tags, "direct-precompile-call-ok")
+		return
+	}
+	*tags = append(*tags, fmt.Sprintf("direct-precompile-call-failed:code-%d", res.Code))
+	// bank: the origin's balance and the fee collector's move by the fee; nothing else may differ
+	feeKeys := func(k string) bool {
+		return strings.Contains(k, string(E.AccAddr.Bytes())) || strings.Contains(k, string(authtypes.NewModuleAddress(authtypes.FeeCollectorName).Bytes()))
+	}
+	var diffs []string
+	for _, name := range keys {
+		a, b := pre[name], post[name]
+		for k, v := range a {
+			if w, ok := b[k]; (!ok || w != v) && !(name == banktypes.StoreKey && feeKeys(k)) {
+				diffs = append(diffs, fmt.Sprintf("%s store: key %x changed", name, k))
+			}
+		}
+		for k := range b {
+			if _, ok := a[k]; !ok && !(name == banktypes.StoreKey && feeKeys(k)) {
+				diffs = append(diffs, fmt.Sprintf("%s store: key %x appeared", name, k))
+			}
+		}
+	}
+	if len(diffs) > 0 {
+		sort.Strings(diffs)
+		if len(diffs) > 6 {
+			diffs = append(diffs[:6], fmt.Sprintf("… %d more", len(diffs)-6))
+		}
+		*fails = append(*fails, Failure{Signature: prop + ":tx:failed-direct-precompile-call-leaves-trace", What: fmt.Sprintf("the transaction failed (code %d, gas limit %s, %s) and yet: %s", res.Code, kv["gas"], strings.TrimSpace(res.Log), strings.Join(diffs, "; ")), Case: line})
+	}
+}
+
+func kvOr(kv map[string]string, k, d string) string {
+	if v, ok := kv[k]; ok && v != "" {
+		return v
+	}
+	return d
 }
 
 // puppetGenLine generates one puppet transaction: value, and a script with nested frames.
@@ -242,7 +357,11 @@ func puppetGenLine(r *rand.Rand, mode string) string {
 			case x < 7:
 				toks = append(toks, fmt.Sprintf("D:%d", 1000+r.Intn(100000)))
 			case x < 8:
-				toks = append(toks, fmt.Sprintf("G:%d", 1000+r.Intn(100000)))
+				if r.Intn(3) == 0 {
+					toks = append(toks, pick(r, []string{"C", "C", "W"}))
+				} else {
+					toks = append(toks, fmt.Sprintf("G:%d", 1000+r.Intn(100000)))
+				}
 			case x < 11:
 				if depth < 3 {
 					rv := r.Intn(3) != 0
@@ -268,7 +387,11 @@ func puppetGenLine(r *rand.Rand, mode string) string {
 	if r.Intn(8) == 0 && !strings.Contains(strings.Join(toks, ","), "[") {
 		gas = 30_000 + r.Intn(200_000) // may run out of gas: the transaction then fails as a whole
 	}
-	return fmt.Sprintf("ptx # value=%d gas=%d script=%s", value, gas, strings.Join(toks, ","))
+	rw := ""
+	if r.Intn(3) == 0 {
+		rw = fmt.Sprintf(" rewards=%d000000000000000000000", 1+r.Intn(1000))
+	}
+	return fmt.Sprintf("ptx # value=%d gas=%d script=%s%s", value, gas, strings.Join(toks, ","), rw)
 }
 
 func init() {
@@ -617,6 +740,9 @@ func c05Exec(c Case, prop string) (outs []string, fails []Failure, tags []string
 			case "ptx":
 				out = "skip"
 				c05Ptx(f, prop, c[i:i+1], &fails, &tags)
+			case "dtx":
+				out = "skip"
+				c05Dtx(f, prop, c[i:i+1], &fails, &tags)
 			case "bank":
 				env.rawBank = true // until the next sync
 				a := sdk.AccAddress(ad(1).Bytes())
@@ -752,7 +878,47 @@ func c05Ptx(f []string, prop string, line Case, fails *[]Failure, tags *[]string
 		toks = strings.Split(kv["script"], ",")
 	}
 	ctx := nw.GetContext()
-	ref := puppetRef{dE: new(big.Int).Neg(value), dP: new(big.Int).Set(value), dX: big.NewInt(0), bondE: big.NewInt(0), bondP: big.NewInt(0)}
+	val0 := nw.GetValidators()[0]
+	if n := mustBig(kvOr(kv, "rewards", "0")); n.Sign() > 0 {
+		// (a delegation earns nothing in the block it was made in: rewards are allocated in a later block)
+		if err := nw.NextBlock(); err != nil {
+			panic(err)
+		}
+		ctx = nw.GetContext()
+		// staking rewards are allocated to the validator (the unit-test network has no votes, so none accrue by themselves)
+		coins := sdk.NewCoins(sdk.NewCoin(nw.GetDenom(), sdkmath.NewIntFromBigInt(n)))
+		if err := nw.App.BankKeeper.MintCoins(ctx, "coinomics", coins); err != nil {
+			panic(err)
+		}
+		if err := nw.App.BankKeeper.SendCoinsFromModuleToModule(ctx, "coinomics", distrtypes.ModuleName, coins); err != nil {
+			panic(err)
+		}
+		if v, ok := nw.App.StakingKeeper.GetValidator(ctx, val0.GetOperator()); ok {
+			nw.App.DistrKeeper.AllocateTokensToValidator(ctx, v, sdk.NewDecCoinsFromCoins(coins...))
+			if os.Getenv("VERIF_DEBUG") != "" {
+				fmt.Fprintln(os.Stderr, "ptx allocate", v.OperatorAddress, v.Tokens, v.Commission.Rate, nw.App.DistrKeeper.GetValidatorCurrentRewards(ctx, v.GetOperator()))
+			}
+		}
+		*tags = append(*tags, "rewards-allocated")
+	}
+	// what is waiting for the origin and for the contract: a dry run of the withdrawal on a branch of the state
+	pending := func(who sdk.AccAddress) *big.Int {
+		cctx, _ := ctx.CacheContext()
+		coins, err := nw.App.DistrKeeper.WithdrawDelegationRewards(cctx, who, val0.GetOperator())
+		if os.Getenv("VERIF_DEBUG") != "" {
+			fmt.Fprintln(os.Stderr, "ptx pending", who.String(), coins, err)
+		}
+		if err != nil || coins.AmountOf(nw.GetDenom()).IsZero() {
+			return nil
+		}
+		return coins.AmountOf(nw.GetDenom()).BigInt()
+	}
+	_, kr0 := fixture()
+	ref := puppetRef{dE: new(big.Int).Neg(value), dP: new(big.Int).Set(value), dX: big.NewInt(0), bondE: big.NewInt(0), bondP: big.NewInt(0),
+		pendE: pending(kr0.GetKey(puppetOrigin).AccAddr), pendP: pending(puppetAddr.Bytes())}
+	if ref.pendP != nil {
+		*tags = append(*tags, "contract-has-pending-rewards")
+	}
 	var pre [3]int64
 	for k := 0; k < 3; k++ {
 		pre[k] = nw.App.EvmKeeper.GetState(ctx, puppetAddr, common.BigToHash(big.NewInt(int64(k)))).Big().Int64()
